@@ -221,7 +221,7 @@ def run(tier):
     cfg = "MCSyntax.cfg"
     if tier == "thorough":
         with open(os.path.join(C.SPEC, "MCSyntax.cfg")) as f:
-            txt = f.read().replace("NRandom = 3", "NRandom = 25").replace("SinglePer = 1", "SinglePer = 6").replace("NSingle = 4", "NSingle = 60").replace("Stride = 3", "Stride = 1")
+            txt = f.read().replace("NRandom = 3", "NRandom = 25").replace("SinglePer = 1", "SinglePer = 3").replace("NSingle = 4", "NSingle = 12").replace("Stride = 3", "Stride = 1")
         with open(os.path.join(C.SPEC, "MCSyntaxT.cfg"), "w") as f:
             f.write(txt)
         cfg = "MCSyntaxT.cfg"
